@@ -49,14 +49,12 @@ PlansPairs == { <<"map_query", "map_query">>,
                 <<"flatmap_case", "before_generate_query">>,
                 <<"filter_case", "map_body">> }
 PlansTriples == { <<"map_query", "map_query", "filter_query">>,
-                  <<"before_generate_body", "flatmap_body", "map_case">>,
-                  <<"flatmap_case", "before_generate_query", "filter_body">>,
-                  <<"map_body", "filter_case", "before_generate_case">>,
-                  <<"flatmap_query", "map_case", "map_query">> }
+                  <<"before_generate_body", "flatmap_case", "map_case">>,
+                  <<"filter_case", "before_generate_case", "flatmap_query">> }
 PlansRich == { <<"map_headers", "filter_cookies">>,
                <<"before_generate_path_parameters", "flatmap_headers">>,
-               <<"map_case", "map_path_parameters">>,
-               <<"map_query", "before_generate_cookies">> }
+               <<"map_body", "before_generate_query">>,
+               <<"flatmap_body", "filter_body">> }
 Plans == IF Rich THEN PlansRich ELSE IF MaxReg <= 2 THEN PlansPairs ELSE PlansTriples
 
 ---------------------------------------------------------------------------
